@@ -271,6 +271,9 @@ func (vc *VC) inline(act *Act, st *State, fn *ssa.Function, args []Val, bind []V
 	}
 	sub := vc.newAct(fn, act)
 	sub.fc = nil
+	if fc := vc.eng.contractFor(fn); fc != nil && fc.Inline {
+		sub.fc = fc // loop invariants of an inlined callee are checked in the caller's context
+	}
 	sub.mayPanic = act.mayPanic
 	for k, p := range fn.Params {
 		sub.env[p] = args[k]
@@ -633,16 +636,29 @@ func (vc *VC) resolveModifies(env *SpecEnv, clauses []*Clause) (items []frameIte
 				}
 				if pt, isPtr := tv.t.Underlying().(*types.Pointer); isPtr && !vc.eng.wholeObjectType(pt.Elem()) {
 					items = append(items, frameItem{kind: "range", ref: p.ref, lo: p.idx, hi: add(p.idx, width(pt.Elem())), text: it.Text})
+				} else if isPtr {
+					items = append(items, frameItem{kind: "obj", ref: p.ref, text: it.Text, otype: pt.Elem()})
 				} else {
 					items = append(items, frameItem{kind: "obj", ref: p.ref, text: it.Text})
 				}
 			case "all":
 				tv := env.evalTV(it.Expr)
-				items = append(items, frameItem{kind: "obj", ref: refOf(tv.v), text: it.Text})
+				fi := frameItem{kind: "obj", ref: refOf(tv.v), text: it.Text}
+				switch u := tv.t.Underlying().(type) {
+				case *types.Slice:
+					fi.otype = types.NewSlice(u.Elem())
+				case *types.Map:
+					fi.otype = u
+				}
+				items = append(items, fi)
 			case "field":
 				sel := it.Expr
-				ptr, off, w := env.fieldAddr(sel)
-				items = append(items, frameItem{kind: "range", ref: ptr.ref, lo: add(ptr.idx, off), hi: add(ptr.idx, off+w), text: it.Text})
+				ptr, off, w, ot := env.fieldAddrT(sel)
+				fi := frameItem{kind: "range", ref: ptr.ref, lo: add(ptr.idx, off), hi: add(ptr.idx, off+w), text: it.Text}
+				if ot != nil && vc.eng.wholeObjectType(ot) {
+					fi.otype, fi.flo, fi.fhi = ot, off, off+w
+				}
+				items = append(items, fi)
 			}
 		}
 	}
